@@ -24,6 +24,7 @@ import (
 	"sync"
 	"testing"
 	"testing/synctest"
+	"time"
 
 	"github.com/creachadair/jrpc2"
 	"github.com/creachadair/jrpc2/handler"
@@ -591,7 +592,10 @@ func TestEquiv(t *testing.T) {
 	}
 	run := func(cli *jrpc2.Client) []obs {
 		var out []obs
-		ctx := context.Background()
+		// every operation has a deadline: an operation that never completes over one transport is a difference
+		// (context deadline exceeded vs the direct result), not a hung check
+		ctx, cancel := context.WithTimeout(context.Background(), 20*time.Second)
+		defer cancel()
 		one := func(rsp *jrpc2.Response, err error) obs {
 			if err != nil {
 				return obs{Kind: "call", Err: fmt.Sprintf("%d|%v", jrpc2.ErrorCode(err), err)}
@@ -608,12 +612,30 @@ func TestEquiv(t *testing.T) {
 		out = append(out, one(cli.Call(ctx, "unmarshalable", nil)))
 		out = append(out, obs{Kind: "notify", Err: fmt.Sprint(cli.Notify(ctx, "echo", []int{1}))})
 		out = append(out, obs{Kind: "notify", Err: fmt.Sprint(cli.Notify(ctx, "nope", nil))})
-		for _, specs := range [][]jrpc2.Spec{
+		batches := [][]jrpc2.Spec{
 			{{Method: "echo", Params: []int{1}}, {Method: "echo", Params: []int{2}, Notify: true}, {Method: "nope"}, {Method: "fail", Params: map[string]int{"code": 9}}},
 			{{Method: "echo", Notify: true}, {Method: "nope", Notify: true}},
 			{{Method: "a/b"}},
-		} {
-			rsps, err := cli.Batch(ctx, specs)
+		}
+		// every composition of a batch from a succeeding call, a failing call and a notification, up to length 3
+		kinds := []jrpc2.Spec{{Method: "echo", Params: []int{7}}, {Method: "fail", Params: map[string]int{"code": 11}}, {Method: "echo", Params: []int{8}, Notify: true}}
+		var comps func(prefix []jrpc2.Spec, n int)
+		comps = func(prefix []jrpc2.Spec, n int) {
+			if len(prefix) > 0 {
+				batches = append(batches, append([]jrpc2.Spec(nil), prefix...))
+			}
+			if n == 0 {
+				return
+			}
+			for _, k := range kinds {
+				comps(append(prefix, k), n-1)
+			}
+		}
+		comps(nil, 3)
+		for _, specs := range batches {
+			octx, ocancel := context.WithTimeout(ctx, 3*time.Second)
+			rsps, err := cli.Batch(octx, specs)
+			ocancel()
 			o := obs{Kind: "batch", Err: fmt.Sprint(err)}
 			for _, r := range rsps {
 				if e := r.Error(); e != nil {
